@@ -520,7 +520,12 @@ class PSBaseParser:
                 # If we hit EOF in the middle of a token, try to parse
                 # it by tacking on whitespace, and delay raising PSEOF
                 # until next time around
-                self.charpos = self._parse1(b"\n", 0)
+                # A state may hand the character back to another state
+                # without consuming it (e.g. "/A#41" at EOF), so repeat
+                # until the whitespace is actually consumed.
+                self.charpos = 0
+                while self.charpos < 1:
+                    self.charpos = self._parse1(b"\n", self.charpos)
                 self.eof = True
                 # Oh, so there wasn't actually a token there? OK.
                 if not self._tokens:
